@@ -394,12 +394,13 @@ class Oracle:
         return fs, ds, ss
 
     def cause_missing(self, k, cls, key, i, m=None):
-        """why may instance `key`, owned by id i by the spec, be absent from the list of manager object m (id i)"""
+        """why may instance `key`, owned by id i by the spec, be absent from the list of manager object m (id i).
+        A trailing '!' = not explainable by a disturbance through another manager either (see explain())."""
         if cls == 's':
             a, b = marker('f', key[0][0]), marker('d', key[1][0])
             p = self.prov[k].get(('s',) + key)
             if p is not None and p[0] == 'owned' and p[2] == m:
-                return 'unexplained'          # the object that created it must know it
+                return 'unexplained!'          # the object that created it must know it
             if a != i and b != i:
                 if a is None and b is None:
                     return 'owned_sub_both_ends_unowned'      # ... and a later manager object cannot find it
@@ -408,7 +409,12 @@ class Oracle:
         p = self.prov[k].get((cls,) + key)
         if p is not None and p[0] == 'permanent':
             return 'permanent_name_carries_marker'
-        return 'unexplained'
+        if p is not None and p[0] == 'leaked':
+            # created by a call that then raised (KeyError on a deleted dict entry after a half-way remove_server)
+            return 'unexplained'
+        # a filter / destination carrying the manager's marker whose list entry exists: created as owned through
+        # this id or found by add_server — nothing another manager does takes it out of the list
+        return 'unexplained!'
 
     def foreign_sub_cause(self, k, key, i):
         """a subscription that references an instance marked for id i although the spec does not count it as
@@ -433,7 +439,9 @@ class Oracle:
             if not present:
                 return 'unexplained_not_in_server'
             return self.foreign_sub_cause(k, key, i)
-        return 'unexplained'
+        if key not in {tup(x) for x in st[cls]}:
+            return 'unexplained_not_in_server'        # may have been deleted through another manager's claim
+        return 'unexplained!'                         # present, without this id's marker, yet listed
 
     def check_lists(self, snap, after):
         for mg in snap['mgrs']:
@@ -468,7 +476,10 @@ class Oracle:
         return self.taint.get((m, k), 'unexplained')
 
     def explain(self, m, k, cause):
-        """a mismatch without a direct explanation on a pair known to be disturbed by another manager"""
+        """a mismatch without a direct explanation on a pair known to be disturbed by another manager takes that
+        disturbance as its cause — except causes marked final ('!')"""
+        if cause.endswith('!'):
+            return cause[:-1]
         if cause.startswith('unexplained') and (m, k) in self.taint:
             return self.taint[(m, k)]
         if cause == 'sub_end_owned_by_other_manager':
@@ -548,11 +559,39 @@ class Oracle:
             stb, sta = before['stores'][kk], after['stores'][kk]
             for cls in 'fd':
                 for x in {tup(x) for x in sta[cls]} - {tup(x) for x in stb[cls]}:
-                    self.prov[kk][(cls,) + x] = ('owned' if op.get('owned', True) else 'permanent', i, m)
+                    self.prov[kk][(cls,) + x] = ('leaked' if 'ok' not in res else
+                                                 'owned' if op.get('owned', True) else 'permanent', i, m)
             for x in subkeys(sta) - subkeys(stb):
                 owned = bool(op.get('owned', True))
                 self.prov[kk][('s',) + x] = ('owned' if owned else 'permanent', i, m)
                 self.subowner[kk][x] = i if owned else None
+        # ---- clause: what an add call hands back is what it says: an owned add returns an instance that carries the
+        #      manager's own marker, exists in the server and is in the manager's list (never an instance of another
+        #      manager, a permanent or a static one); a permanent add returns an existing, unlisted instance
+        if o in ('addDest', 'addFilter', 'addSubs') and 'ok' in res and k is not None and k < nsrv:
+            sta = after['stores'][k]
+            reg = next((r for mg in after['mgrs'] if mg['m'] == m for r in mg['regs'] if r['s'] == k), None)
+            cls = {'addDest': 'd', 'addFilter': 'f', 'addSubs': 's'}[o]
+            owned = bool(op.get('owned', True)) if o != 'addFilter' else op.get('fid') is not None
+            got = [res['ok'][cls]] if cls != 's' else res['ok']['S']
+            for r_ in got:
+                key = tup(r_) if cls != 's' else (tuple(r_[0:2]), tuple(r_[2:4]))
+                inserver = key in ({tup(x) for x in sta[cls]} if cls != 's' else subkeys(sta))
+                lst = reg[{'d': 'od', 'f': 'of', 's': 'os'}[cls]] if reg else None
+                listed = None if lst in (None, 'KeyError') else \
+                    key in ({tup(x) for x in lst} if cls != 's' else {(tuple(x[0:2]), tuple(x[2:4])) for x in lst})
+                why = None
+                if not inserver:
+                    why = 'not_in_server'
+                elif owned and cls != 's' and marker(cls, key[0]) != i:
+                    why = 'marked_for_other_manager' if marker(cls, key[0]) is not None else 'not_marked'
+                elif owned and listed is False:
+                    why = 'not_in_owned_list'
+                elif not owned and listed is True:
+                    why = 'in_owned_list'
+                if why:
+                    self.violate({'kind': 'add_returned_wrong_instance', 'cls': cls, 'owned': owned, 'why': why},
+                                 {'mgr': m, 'id': i, 'server': k, 'returned': r_})
         # ---- clause: add_server (re)discovers exactly the owned set — checked by check_lists below;
         #      an exception other than "already registered" means no discovery at all
         if o == 'addServer' and 'ok' not in res:
@@ -791,6 +830,59 @@ class Gen:
         self.nops = rng.randint(8, 30 if thorough else 22)
         self.mgr_ids = []       # index -> id (successfully created)
         self.alive = []
+        self.script = []
+        if mode == 'cross' and rng.random() < 0.6:
+            self.directed_cross()
+
+    def directed_cross(self):
+        """scripted opening of a cross-manager history (the random generator continues afterwards): managers A and
+        B on server 0; A owns 1-3 filters and 1-2 destinations (some subscribed); B puts a subscription of its own
+        on one of A's filters or destinations; A's remove_server then fails half-way in the filter or in the
+        destination loop, at the first or at a later element; B goes away; A retries."""
+        rng, cps = self.rng, common.cps
+        ids = []
+        for x in self.idfam + ['m1', 'm2']:
+            if ':' not in x and x not in ids:
+                ids.append(x)
+        a, b = ids[0], ids[1]
+        self.idfam = [a, b] + [x for x in self.idfam if x not in (a, b)]
+        self.nsrv = max(self.nsrv, 1)
+        nf, nd = rng.choice([1, 2, 2, 3]), rng.choice([1, 1, 2])
+        sc = [{'op': 'newMgr', 'id': cps(a)}, {'op': 'newMgr', 'id': cps(b)},
+              {'op': 'addServer', 'm': 0, 's': 0}, {'op': 'addServer', 'm': 1, 's': 0}]
+        urls = rng.sample(URL_POOL[:11], 4)
+
+        def dest(m, did, raw):
+            return {'op': 'addDest', 'm': m, 's': 0, 'rawurl': raw, 'url': urltoken(self.urls, raw), 'owned': True,
+                    'destId': cps(did), 'name': None, 'pt': None}
+
+        def filt(m, fid):
+            return {'op': 'addFilter', 'm': m, 's': 0, 'owned': True, 'fid': cps(fid), 'name': None}
+        fa = ['fa%d' % j for j in range(nf)]
+        da = ['da%d' % j for j in range(nd)]
+        sc += [filt(0, x) for x in fa] + [dest(0, x, urls[j]) for j, x in enumerate(da)]
+        pf = lambda i, x: [cps(PREFIX['f'] + i + ':' + x), 0]     # noqa: E731
+        pd = lambda i, x: [cps(PREFIX['d'] + i + ':' + x), 0]     # noqa: E731
+        if rng.random() < 0.6:
+            sc.append({'op': 'addSubs', 'm': 0, 's': 0, 'f': pf(a, rng.choice(fa)), 'sel': None, 'owned': True})
+        sc += [filt(1, 'fb'), dest(1, 'db', urls[3])]
+        owned = rng.random() < 0.7
+        if rng.random() < 0.6:        # B's subscription on A's filter and B's destination
+            sc.append({'op': 'addSubs', 'm': 1, 's': 0, 'f': pf(a, rng.choice(fa)),
+                       'sel': {'one': pd(b, 'db')}, 'owned': owned})
+        else:                          # B's filter, A's destination
+            sc.append({'op': 'addSubs', 'm': 1, 's': 0, 'f': pf(b, 'fb'),
+                       'sel': {'one': pd(a, rng.choice(da))}, 'owned': owned})
+        sc.append({'op': 'removeServer', 'm': 0, 's': 0} if rng.random() < 0.7 else
+                  {'op': 'removeAll', 'm': 0, 'exit': rng.choice([False, 'normal', 'ValueError'])})
+        tail = rng.random()
+        if tail < 0.6:
+            sc += [{'op': 'removeServer', 'm': 1, 's': 0}, {'op': 'removeServer', 'm': 0, 's': 0}]
+        elif tail < 0.8:
+            sc += [{'op': 'getOwned', 'm': 0, 's': 0, 'which': rng.choice('dfs')},
+                   {'op': 'removeServer', 'm': 0, 's': 0}]
+        self.script = sc
+        self.nops = max(self.nops, len(sc) + rng.randint(0, 6))
 
     def case(self, ops):
         return {'nsrv': self.nsrv, 'static': self.static, 'ops': ops, 'mode': self.mode,
@@ -1048,6 +1140,8 @@ def generate_and_run(seed_mode):
                     continue
                 op = {'op': 'addServer', 'm': i, 's': servers[0]}
                 pending_restart = ('reg', i, servers[1:]) if servers[1:] else None
+        elif g.script:
+            op = g.script.pop(0)
         else:
             op = g.next_op(snap)
         if op['op'] == 'dropMgr' and op.get('restart'):
